@@ -221,6 +221,13 @@ def oracle_c10(step):
     if step.cls in ("check", "prune", "regenerate-imports", "fmt"):
         if post != "success":
             out.append({"what": f"`{' '.join(step.args)}` on a passing store left a store whose verdict is {post!r}"})
+        elif step.cls in ("prune", "regenerate-imports"):
+            # the files as WRITTEN must pass on their own (what `prune_preserves` / `regenerate_imports_preserves` state): an
+            # unlocked re-check fetches again whatever the command dropped, a `--locked` one cannot
+            locked = step.concl("post_locked")
+            if locked is not None and locked != "success":
+                out.append({"what": f"`{' '.join(step.args)}` on a passing store wrote files with which `cargo vet --locked` gives {locked!r} "
+                                    f"(a record the certifying chains need was dropped)"})
     elif step.cls in ("certify", "add-exemption", "trust", "import"):
         if post == "fail (vetting)":
             out.append({"what": f"the clean-up after `{' '.join(step.args[:3])}` broke a passing store (verdict {post!r})"})
